@@ -192,6 +192,14 @@ def traces(cfg, env0, call_key, funcs=None, max_states=20000):
                 k = call_key(x)
                 if k is not None:
                     vals = []
+                    if k.endswith('@recv') and isinstance(x.func, ast.Attribute):
+                        # the receiver is part of what is recorded (which object was asked)
+                        try:
+                            v = A.ev(x.func.value, env, funcs)
+                            hash(v)
+                        except Exception:
+                            v = ('expr', ast.unparse(x.func.value))
+                        vals.append(v)
                     for a_ in x.args:
                         try:
                             v = A.ev(a_, env, funcs)
@@ -200,6 +208,13 @@ def traces(cfg, env0, call_key, funcs=None, max_states=20000):
                             v = ('expr', ast.unparse(a_))
                         vals.append(v)
                     tr = tr + ((k, tuple(vals)),)
+        if nd.kind == 'return':
+            try:
+                rv = A.ev(nd.ast.value, env, funcs) if nd.ast.value is not None else None
+                hash(rv)
+            except Exception:
+                rv = ('expr', ast.unparse(nd.ast.value))
+            tr = tr + (('@return', (rv,)),)
         env['@trace'] = tr
         if nd is cfg.exit or nd.kind == 'return' and False:
             pass
